@@ -126,9 +126,9 @@ class Geometry:
                 )
 
         else:
-            # Scalar case.
-            if not all([i == j for i, j in zip(fetched_shape, self.num_voxels)]):
-                self.cached_voxel_volume = self.voxel_volume * scaling
+            # Scalar case. NOTE: Always update; otherwise the volume rescaled for
+            # some previous, differently sized data is reused for native data.
+            self.cached_voxel_volume = self.voxel_volume * scaling
 
         # ! ---- Perform spatial integration
         if isinstance(data, np.ndarray):
